@@ -27,21 +27,21 @@ abbrev badF : Char → Bool := fun c => decide (c = '_') || decide (c.toNat ≥ 
 abbrev lowF : Char → Char := fun c => if 65 ≤ c.toNat ∧ c.toNat ≤ 90 then Char.ofNat (c.toNat + 32) else c
 
 /-- `pyFloat` = strip, lower-case, sign, body -/
-theorem pyFloat_neg {s r : List Char} (hs : strip s = '-' :: r)
+theorem pyFloat_neg {s r : List Char} (hs : numStrip s = '-' :: r)
     (hb : ('-' :: r).any badF = false) (hl : ('-' :: r).map lowF = '-' :: r) :
     pyFloat s = floatBody true r := by
   unfold pyFloat
   simp only [hs, hb, hl, Bool.false_eq_true, ↓reduceIte]
   rfl
 
-theorem pyFloat_pos {s r : List Char} (hs : strip s = '+' :: r)
+theorem pyFloat_pos {s r : List Char} (hs : numStrip s = '+' :: r)
     (hb : ('+' :: r).any badF = false) (hl : ('+' :: r).map lowF = '+' :: r) :
     pyFloat s = floatBody false r := by
   unfold pyFloat
   simp only [hs, hb, hl, Bool.false_eq_true, ↓reduceIte]
   rfl
 
-theorem pyFloat_plain {s t : List Char} (hs : strip s = t)
+theorem pyFloat_plain {s t : List Char} (hs : numStrip s = t)
     (hb : t.any badF = false) (hl : t.map lowF = t)
     (h1 : ∀ r, t ≠ '-' :: r) (h2 : ∀ r, t ≠ '+' :: r) :
     pyFloat s = floatBody false t := by
